@@ -216,6 +216,24 @@ def encode_key(tree, rng=None, top=False) -> list:
     return ['ALL']
 
 
+def kinds_in(tree) -> set:
+    k = tree[0]
+    if k == 'not':
+        return {'not'} | kinds_in(tree[1])
+    if k == 'or':
+        return {'or'} | kinds_in(tree[1]) | kinds_in(tree[2])
+    if k == 'and':
+        out = {'and'}
+        for t in tree[1]:
+            out |= kinds_in(t)
+        return out
+    return {k}
+
+
+def may_refuse(tree) -> bool:
+    return bool(kinds_in(tree) & {'seq', 'seqset', 'set'})
+
+
 def rewrite(tree, rng: random.Random):
     """A logically equivalent program."""
     k = tree[0]
@@ -445,6 +463,14 @@ def run_search(case: dict, trace: bool = False) -> dict:
                 break
             if c.cond != 'OK':
                 ctx.stat('search_not_ok')
+                if not may_refuse(tree):
+                    # every generated program is legal RFC 3501 syntax over
+                    # supported keys: only a sequence number beyond the view
+                    # is a reason to refuse one
+                    ctx.violate('C13', 'refused', 'legal program %r answered '
+                                '%s %r' % (tree, c.cond, c.result.text),
+                                key=','.join(sorted(kinds_in(tree))))
+                    break
                 continue
             srch = [r for r in c.untagged if r.name == b'SEARCH']
             if len(srch) != 1:
